@@ -69,7 +69,8 @@ def gen_case(rng, tier, index):
     if k == 7:
         return {"kind": "tmp-race", "ops": [{"creates": rng.randint(20, 60), "pace": rng.choice([0, 0.0005, 0.002])}
                                             for _ in range(rng.randint(1, 3))],
-                "line_delay": rng.choice([0.0005, 0.002, 0.005]), "parent_raises": rng.random() < 0.3}
+                "line_delay": rng.choice([0.0005, 0.002, 0.005]), "parent_raises": rng.random() < 0.3,
+                "mode": "remove" if (index // 10) % 2 else "flush"}
     nfiles = rng.randint(0, 6)
     files = [rng.randrange(5) for _ in range(nfiles)]
     return {"kind": "filepool", "files": files, "mode": rng.choice(["r", "rb", "w", "a", "r+", "ab", "wb"]),
@@ -328,10 +329,21 @@ def run_tmp_multi(case, res):
 def _race_child(pool, spec, conn):
     instr.reset_for_child("child")
     try:
-        for _ in range(spec["creates"]):
-            conn.send(pool.create())
+        mine = []
+        for j in range(spec["creates"]):
+            p = pool.create()
+            mine.append(p)
+            conn.send(("created", p))
+            if spec.get("removes") and j % 3 == 2:
+                # the child removes one of its own earlier files through the pool, concurrently with everybody else
+                victim = mine.pop(0)
+                pool.remove(victim)
+                conn.send(("removed", victim))
             if spec["pace"]:
                 time.sleep(spec["pace"])
+        for victim in spec.get("assigned", []):
+            pool.remove(victim)
+            conn.send(("removed", victim))
     finally:
         conn.close()
 
@@ -352,12 +364,38 @@ def run_tmp_race(case, res):
     for rel in range(0, 40):
         for occ in range(1, 600):
             plan[("main", "TmpPool.flush", rel, occ)] = ("sleep", case["line_delay"])
+    removed = set()
+    mode = case.get("mode", "flush")
+
+    def drain(a):
+        while a.poll(0):
+            try:
+                tag, path = a.recv()
+            except EOFError:
+                break
+            if tag == "created":
+                ever.append(path)
+            else:
+                removed.add(path)
+    if mode == "remove":
+        # concurrent remove() calls of different processes on different paths; statements of remove() in the parent are
+        # stretched, so that a child's remove falls between any two of its steps
+        plan = {}
+        for rel in range(0, 40):
+            for occ in range(1, 200):
+                plan[("main", "TmpPool.remove", rel, occ)] = ("sleep", case["line_delay"])
     pool_obj = TmpPool(d, multi_proc=True)
     try:
         with pool_obj as pool:
             procs = []
-            for spec in case["ops"]:
+            parent_files = []
+            if mode == "remove":
+                parent_files = [pool.create() for _ in range(8 + 4 * len(case["ops"]))]
+                ever.extend(parent_files)
+            for ci, spec in enumerate(case["ops"]):
                 a, b = ctx.Pipe(duplex=False)
+                if mode == "remove":
+                    spec = dict(spec, removes=True, assigned=parent_files[1 + ci::len(case["ops"]) + 1][:3])
                 p = ctx.Process(target=_race_child, args=(pool, spec, b))
                 p.start()
                 b.close()
@@ -366,15 +404,20 @@ def run_tmp_race(case, res):
             try:
                 flushes = 0
                 t_end = time.time() + 30
+                if mode == "remove":
+                    assigned = {x for ci in range(len(case["ops"])) for x in parent_files[1 + ci::len(case["ops"]) + 1][:3]}
+                    for victim in [x for x in parent_files if x not in assigned][::-1][:6]:
+                        pool.remove(victim)
+                        removed.add(victim)
+                        res.count("race_parent_removes")
                 while any(p.is_alive() for p, _ in procs) and time.time() < t_end:
-                    pool.flush()
-                    flushes += 1
+                    if mode == "flush":
+                        pool.flush()
+                        flushes += 1
+                    else:
+                        time.sleep(0.005)
                     for p, a in procs:
-                        while a.poll(0):
-                            try:
-                                ever.append(a.recv())
-                            except EOFError:
-                                break
+                        drain(a)
             finally:
                 fired = len(instr.S.fired)
                 instr.stop_case()
@@ -385,18 +428,24 @@ def run_tmp_race(case, res):
                 if p.is_alive():
                     p.kill()
                     fail("harness-timeout", "child did not exit (inconclusive)")
-                while a.poll(0):
-                    try:
-                        ever.append(a.recv())
-                    except EOFError:
-                        break
+                drain(a)
             res.count("race_files_created_by_children", len(ever))
+            res.count("race_removes_by_children_and_parent", len(removed))
             res.evaluations += 1
             alive = sorted(p for p in ever if os.path.exists(p))
+            if mode == "remove":
+                want = sorted(p for p in ever if p not in removed)
+                if alive != want:
+                    fail("concurrent-remove-lost", f"{len(alive)} files exist, created-and-not-removed are {len(want)}: "
+                         f"removed but still on disk {[p for p in alive if p in removed][:2]}, vanished {[p for p in want if p not in alive][:2]}")
             on_disk = sorted(os.path.join(d, f) for f in os.listdir(d))
             listed = sorted(pool[i] for i in range(len(pool)))
             if on_disk != alive:
                 fail("files-vs-listing", "the directory holds files the pool never handed out")
+            if listed != alive and mode == "remove":
+                fail("concurrent-remove-lost", f"after concurrent remove() calls the pool lists {len(listed)} paths, "
+                     f"{len(alive)} created-and-not-removed files exist; listed but gone: {[p for p in listed if p not in alive][:2]}, "
+                     f"existing but unlisted: {[p for p in alive if p not in listed][:2]}")
             if listed != alive:
                 fail("created-during-flush-lost", f"after the children finished the pool lists {len(listed)} paths but "
                      f"{len(alive)} created-and-not-removed files exist; unlisted: {[p for p in alive if p not in listed][:3]}")
